@@ -25,7 +25,9 @@ Definition mut := (Z * nat * Z)%type.
 
 Inductive case :=
 | CHist (init_dc : Z) (evs : list (@event Z)) (o : list obs) (regs cdns : list (Z * z3))
-| CRestore (prev_dc dc : Z) (key id : list Z) (salt : Z) (ms : list (mut * (bool * Z))).
+| CRestore (prev_dc dc : Z) (key id : list Z) (salt : Z) (ms : list (mut * (bool * Z * Z * bool))).
+(* per corruption: error?, DC of the primary session afterwards, its salt, and whether the key
+   installed is the stored one (copied into [256]byte / [8]byte) *)
 
 Fixpoint xor_at (l : list Z) (i : nat) (v : Z) : list Z :=
   match l, i with
@@ -71,11 +73,11 @@ Definition ok (c : case) : bool :=
       | None => false
       end
   | CRestore prev dc key id salt ms =>
-      forallb (fun e : mut * (bool * Z) =>
-                 let '(m, (err, odc)) := e in
+      forallb (fun e : mut * (bool * Z * Z * bool) =>
+                 let '(m, (err, odc, osalt, okey)) := e in
                  let '(k', i') := apply_mut key id m in
                  match restore_bytes key_id prev (mkStored dc k' i' salt) with
-                 | Ok (dc', _, _, _) => negb err && (dc' =? odc)
+                 | Ok (dc', _, _, salt') => negb err && (dc' =? odc) && (salt' =? osalt) && okey
                  | _ => err
                  end) ms
   end.
